@@ -74,6 +74,8 @@ type cluster struct {
 	watchGroup *threading.RoutineGroup
 	done       chan lang.PlaceholderType
 	lock       sync.Mutex
+	// reloadLock 串行化 reload：等待旧的监控协程退出时不能持有 lock（见 reload）。
+	reloadLock sync.Mutex
 }
 
 func newCluster(endpoints []string) *cluster {
@@ -122,9 +124,19 @@ func (c *cluster) watchConnState(cli EtcdClient) {
 }
 
 func (c *cluster) reload(cli EtcdClient) {
+	c.reloadLock.Lock()
+	defer c.reloadLock.Unlock()
+
 	c.lock.Lock()
 	close(c.done)
-	c.watchGroup.Wait()
+	group := c.watchGroup
+	c.lock.Unlock()
+
+	// 等待旧的监控协程退出时不能持有 c.lock：刚取到一批事件、正在 handleWatchEvents 里
+	// 等这把锁的监控协程永远无法结束，reload 与它互相等待而死锁，之后该集群的订阅再也不会更新。
+	group.Wait()
+
+	c.lock.Lock()
 	c.done = make(chan lang.PlaceholderType)
 	c.watchGroup = threading.NewRoutineGroup()
 	var keys []string
